@@ -81,8 +81,11 @@ structure Proc where
   chanClosed  : Bool := false   -- handleProcessExit closed it
 deriving DecidableEq, Repr
 
+/-- supervisor name of an extension process -/
+def extFull (name : String) (gen : Nat) : String := s!"extension-{name}-{gen}"
+
 def Proc.full (p : Proc) : String :=
-  if p.name == "runtime" then s!"runtime-{p.gen}" else s!"extension-{p.name}-{p.gen}"
+  if p.name == "runtime" then s!"runtime-{p.gen}" else extFull p.name p.gen
 
 inductive Renderer where
   | none
@@ -226,7 +229,7 @@ structure State where
   timers : List String := []
   -- output of the current op
   out : List String := []
-deriving Repr
+deriving Repr, DecidableEq
 
 def State.emit (s : State) (e : String) : State := { s with out := s.out ++ [e] }
 
